@@ -72,7 +72,9 @@ class C01(Profile):
             bounds=("exact", "exact", "loose", "zeromin", "unbounded"),
         )
         ops = g.build()
-        return {"config": swarm_config(rng), "ops": ops}
+        # in a third of the runs nothing is evaluated when it is built: only the explicit run / cursor / process ops
+        # evaluate, in whatever order the history says (a derived relation may be evaluated before its base)
+        return {"config": swarm_config(rng, eval_new=rng.random() < 0.67), "ops": ops}
 
     def dn_keys(self, run):
         nontrivial = any(k.startswith(("merge:", "then:")) for e in run.pool for k in e.events) or \
@@ -126,13 +128,13 @@ class C02(Profile):
         return {s for s in run.shapes if s.count("Select") >= 2 or "Join" in s or "Chain" in s}
 
 
-def multi_gen(rng, tier, *, weights, flags_p=0.5, engines=None, max_ops=None, **kw):
+def multi_gen(rng, tier, *, weights, flags_p=0.5, engines=None, max_ops=None, config_over=None, **kw):
     big = tier == "thorough"
     engines = engines or (["sql", "it", "it2"] if rng.random() < 0.35 else ["sql", "it"])
     kw.setdefault("hidden_p", 0.15)
     g = Gen(rng, engines=engines, weights=weights, max_ops=max_ops or (14 if big else 9), nleaves=(1, 3),
             flags_p=flags_p, **kw)
-    return {"config": swarm_config(rng), "ops": g.build()}
+    return {"config": swarm_config(rng, **(config_over or {})), "ops": g.build()}
 
 
 MULTI_W = {**UNARY_W, "xfer": 4, "mat": 1.2, "chain": 1, "join": 1.2, "leaf": 1, "chain_empty": 0.3, "roundtrip_empty": 0.25, "mark": 0.6, "custom": 1.2, "marker_tower": 0.25}
@@ -220,7 +222,8 @@ class C03(Profile):
         return meaning(plain) == meaning(entry.rel)
 
     def gen(self, rng, tier):
-        return multi_gen(rng, tier, weights={**MULTI_W, "process": 1.5, "join": 2, "flag_on_processed": 0.8}, flags_p=0.6, udf_p=0.04)
+        return multi_gen(rng, tier, weights={**MULTI_W, "process": 1.5, "join": 2, "flag_on_processed": 0.8}, flags_p=0.6, udf_p=0.04,
+                         special_leaf_p=0.06)
 
     def dn_keys(self, run):
         from .world import shape
@@ -252,7 +255,7 @@ class C04(C03):
         return self.claims.get(kind)
 
     def gen(self, rng, tier):
-        return multi_gen(rng, tier, weights={**MULTI_W, "xfer": 5}, flags_p=0.75, udf_p=0.04)
+        return multi_gen(rng, tier, weights={**MULTI_W, "xfer": 5}, flags_p=0.75, udf_p=0.04, special_leaf_p=0.06)
 
     def dn_keys(self, run):
         return {k for k in run.dn if k and k[0] == "commute"}
@@ -282,7 +285,7 @@ class C05(Profile):
         big = tier == "thorough"
         eng = rng.choice(["it", "sql"])
         g = Gen(rng, engines=[eng],
-                weights={"calc": 2, "proj": 3, "sel": 3, "dedup": 1, "sort": 3, "slice": 4, "chain": 0.5, "leaf": 0.5,
+                weights={"calc": 2, "proj": 3, "sel": 3, "dedup": 1, "sort": 3, "slice": 4, "chain": 1.5, "leaf": 0.7,
                          "custom": 2 if eng == "it" else 0, "guarded": 1.5 if eng == "it" else 0, "ephemeral": 1.0},
                 max_ops=14 if big else 9, nleaves=(1, 2), adjacent_p=0.6, total_sort_p=0.3, pipeline_p=0.3, stride_order_only=True,
                 udf_p=0.04)
@@ -445,7 +448,7 @@ class C09(Profile):
              "twice": 2, "ill": 2, "diag": 1, "cursor_open": 0.7, "pull": 1.5, "abandon": 0.3, "attach": 0.5, "mark": 0.8, "reuse_mat": 0.6, "flag_on_processed": 0.4, "twin": 0.8, "redeclared_twin": 0.5, "ephemeral": 0.6}
         return multi_gen(rng, tier, weights=w, flags_p=0.3, max_ops=30 if big else 14,
                          engines=rng.choice([["sql"], ["it"], ["sql", "it"], ["sql", "it", "it2"]]), named_mat=True,
-                         redeclare_p=0.15)
+                         redeclare_p=0.15, config_over={"eval_new": rng.random() < 0.67})
 
     def dn_keys(self, run):
         kinds = [o["k"] for o in run.sc["ops"]]
@@ -482,7 +485,7 @@ class C10(Profile):
         w = {"calc": 2, "proj": 2, "sel": 2, "dedup": 1, "sort": 1.5, "slice": 1.5, "xfer": 3, "mat": 5, "chain": 2,
              "chain_empty": 1.2, "roundtrip_empty": 0.4, "roundtrip_mat": 0.5, "reuse_mat": 0.8, "flag_on_processed": 0.4, "marker_tower": 0.6, "redeclared_twin": 0.5, "rawtree": 0.8, "custom": 1.0, "mark": 1.5, "leaf": 1, "process": 5, "run": 4, "attach": 4, "iterate": 2, "cursor_open": 0.5, "pull": 1}
         return multi_gen(rng, tier, weights=w, flags_p=0.1, engines=rng.choice([["it"], ["sql", "it"], ["sql", "it", "it2"]]),
-                         max_ops=18 if tier == "thorough" else 12, udf_p=0.1, redeclare_p=0.1)
+                         max_ops=18 if tier == "thorough" else 12, udf_p=0.1, redeclare_p=0.1, special_leaf_p=0.08)
 
     def dn_keys(self, run):
         nm = len(run.mat_entries)
